@@ -205,6 +205,9 @@ func runSim(p dprog, cfg Config) string {
 }
 
 func TestDifferentialAgainstRealChannels(t *testing.T) {
+	if RaceBuild {
+		t.Skip("the generated programs close channels that other goroutines send on: racy by design on real channels")
+	}
 	seed := uint64(20260928)
 	n := 250
 	if testing.Short() {
